@@ -212,6 +212,14 @@ class StmtMixin(CallMixin):
                     self.assume_valid(st, it)
             else:
                 raise Unsupported("unpacking %s (line %s)" % (v.ty, self.cur_line))
+            if tgt.elts and isinstance(tgt.elts[-1], ast.Starred) and isinstance(v.ty, Tup) and getattr(v.ty, "star_rest", False):
+                # `a, b, *rest = entry`: the model type keeps the variable-length tail as its last component (a list)
+                if len(items) != len(tgt.elts):
+                    raise Unsupported("star-unpack shape")
+                for t2, it in zip(tgt.elts[:-1], items[:-1]):
+                    self.assign(st, t2, it)
+                self.assign(st, tgt.elts[-1].value, V(items[-1].ty, items[-1].t))
+                return
             if len(items) != len(tgt.elts):
                 raise Unsupported("unpack arity")
             for t2, it in zip(tgt.elts, items):
